@@ -38,6 +38,37 @@ Fixpoint vals_fold (parse : string -> option val) (acc : option val) (l : list f
 
 Definition bom_free (l : list file) : Prop := Forall (fun f => has_bom (f_data f) = false) l.
 
+(* ---- charts with dependencies ---- *)
+Definition dname (d : chart) : string := m_name (c_meta d).
+
+(* the chart without its dependencies: what wf_chart speaks about *)
+Definition own (c : chart) : chart :=
+  Chart (c_meta c) (c_lock c) (c_raw c) (c_values c) (c_schema c) (c_templates c) (c_files c) [].
+
+(* nesting depth of the dependency tree (at least 1) *)
+Fixpoint depth (c : chart) : nat := S (fold_right Nat.max 0%nat (map depth (c_deps c))).
+
+(* names usable as a subchart directory: loaded, not skipped ('_' / '.'), not taken for an archive *)
+Definition dep_name_ok (n : string) : Prop :=
+  first_char_in n [underscore; dot] = false /\ String.eqb (path_ext n) ".tgz" = false.
+
+(* strictly increasing in byte order (every element below all later ones): the order in
+   which LoadFiles returns dependencies since fix 14399c3 *)
+Fixpoint strict_sorted (l : list string) : Prop :=
+  match l with
+  | a :: t => Forall (fun b => str_leb a b = true /\ a <> b) t /\ strict_sorted t
+  | [] => True
+  end.
+
+(* the same content, through the whole dependency tree *)
+Inductive same_tree : chart -> chart -> Prop :=
+| SameTree a b :
+    c_meta a = c_meta b -> c_lock a = c_lock b -> raw_values a = raw_values b ->
+    c_values a = c_values b -> c_schema a = c_schema b ->
+    c_templates a = c_templates b -> c_files a = c_files b ->
+    Forall2 same_tree (c_deps a) (c_deps b) ->
+    same_tree a b.
+
 Section Wf.
   Variable parse_values : string -> option val.
   Variable json_valid : string -> bool.
@@ -62,6 +93,19 @@ Section Wf.
     nb_schema : match c_schema c with Some s => has_bom s = false | None => True end;
     nb_templates : bom_free (c_templates c);
     nb_files : bom_free (c_files c) }.
+
+  (* a chart with dependencies: every node well-formed on its own, dependency names usable
+     as directory names and in strictly increasing order *)
+  Inductive wf_tree : chart -> Prop :=
+  | WfTree c :
+      wf_chart (own c) ->
+      strict_sorted (map dname (c_deps c)) ->
+      Forall (fun d => dep_name_ok (dname d)) (c_deps c) ->
+      Forall wf_tree (c_deps c) ->
+      wf_tree c.
+
+  Inductive nobom_tree : chart -> Prop :=
+  | NbTree c : no_bom (own c) -> Forall nobom_tree (c_deps c) -> nobom_tree c.
 End Wf.
 
 (* the archive fits the limits in force *)
